@@ -213,6 +213,83 @@ def check_locate(res, which):
         pv1, pv2 = locate.mat_intersect(a, b, 1)
         if list(pv1) != [1, 3] or list(pv2) != [0, 1]:
             msgs.append("mat_intersect on float vectors with -0.0: %s %s" % (pv1, pv2))
+    elif which == "dtypes":
+        # the helpers' defining relations hold for index / id vectors of ANY integer dtype (unsigned and narrow types
+        # wrap around in differences) and for float vectors holding the same values
+        DT = [np.uint8, np.uint16, np.uint32, np.uint64, np.int8, np.int16, np.int32, np.int64, float]
+
+        def fits(v, dt):
+            return dt is float or (min(v) >= np.iinfo(dt).min and max(v) <= np.iinfo(dt).max)
+
+        base = np.arange(300) * 10
+        pvs = [list(p) for n in (1, 2, 3) for p in itertools.product((0, 1, 3, 5, 100, 127, 128, 200, 250, 253, 255), repeat=n)]
+        for pv in pvs:
+            for dt in DT:
+                if dt is float or not fits(pv, dt):
+                    continue
+                arr = np.array(pv, dtype=dt)
+                snap = arr.copy()
+                try:
+                    sl = locate.index2slice(arr)
+                except Exception as e:  # noqa
+                    msgs.append("index2slice(%s as %s) raised %r" % (pv, np.dtype(dt).name, e))
+                    continue
+                res.ev("dtypes/index2slice/%s/n%d" % (np.dtype(dt).name, len(pv)))
+                if not np.array_equal(base[sl], base[np.array(pv)]):
+                    msgs.append("index2slice(%s as %s) = %s selects %s, the index vector selects %s" % (pv, np.dtype(dt).name, sl, base[sl].tolist()[:6], base[np.array(pv)].tolist()))
+                if not np.array_equal(arr, snap):
+                    msgs.append("index2slice modified its argument")
+                tf = locate.index2bool(arr, 256)
+                fl = locate.flippv(arr, 256)
+                if tf.tolist() != [i in pv for i in range(256)] or fl.tolist() != [i for i in range(256) if i not in pv]:
+                    msgs.append("index2bool/flippv(%s as %s, 256) wrong" % (pv, np.dtype(dt).name))
+        vecs = [list(p) for n in (2, 3, 4) for p in itertools.product((0, 3, 3.0, 10, 128, 200, 255), repeat=n)]
+        for v in vecs:
+            v = [int(x) for x in v]
+            for dt in DT:
+                if not fits(v, dt):
+                    continue
+                arr = np.array(v, dtype=dt)
+                for tol in (0.0, 0.02):
+                    got = locate.find_unique(arr, tol)
+                    dmax = max(abs(a - b) for a, b in zip(v[1:], v))
+                    want = [True] + [abs(b - a) > abs(tol * dmax) for a, b in zip(v, v[1:])]
+                    res.ev("dtypes/find_unique/%s" % np.dtype(dt).name)
+                    if list(got) != want:
+                        msgs.append("find_unique(%s as %s, %g) = %s, expected %s" % (v, np.dtype(dt).name, tol, list(got), want))
+                for tol in (0, 3):
+                    got = locate.find_duplicates(arr, tol)
+                    srt = sorted(range(len(v)), key=lambda i: v[i])
+                    want = [False] * len(v)
+                    for a, b in zip(srt, srt[1:]):
+                        if abs(v[a] - v[b]) <= tol:
+                            want[a] = want[b] = True
+                    res.ev("dtypes/find_duplicates/%s" % np.dtype(dt).name)
+                    if list(got) != want:
+                        msgs.append("find_duplicates(%s as %s, %g) = %s, expected %s" % (v, np.dtype(dt).name, tol, list(got), want))
+                for sub in ([3, 3], [200], [255, 0]):
+                    if not fits(sub, dt):
+                        continue
+                    got = locate.find_subseq(arr, np.array(sub, dtype=dt))
+                    want = [i for i in range(len(v) - len(sub) + 1) if v[i : i + len(sub)] == sub]
+                    if list(got) != want:
+                        msgs.append("find_subseq(%s as %s, %s) = %s, expected %s" % (v, np.dtype(dt).name, sub, list(got), want))
+        M1 = [[200, 10], [0, 255], [3, 3], [128, 127]]
+        M2 = [[0, 255], [9, 9], [200, 10], [127, 128]]
+        for d1, d2, keep in itertools.product(DT, DT, (0, 1, 2)):
+            if not (fits(sum(M1, []), d1) and fits(sum(M2, []), d2)):
+                continue
+            pv1, pv2 = locate.mat_intersect(np.array(M1, dtype=d1), np.array(M2, dtype=d2), keep)
+            res.ev("dtypes/mat_intersect/%s/%s" % (np.dtype(d1).name, np.dtype(d2).name))
+            want = sorted((i, j) for i in range(4) for j in range(4) if M1[i] == M2[j])
+            if sorted(zip(map(int, pv1), map(int, pv2))) != want:
+                msgs.append("mat_intersect(%s as %s, %s as %s, %d) pairs %s, expected %s" % (M1, np.dtype(d1).name, M2, np.dtype(d2).name, keep, list(zip(pv1, pv2)), want))
+            fr = locate.find_rows(np.array(M1, dtype=d1), np.array([0, 255], dtype=d2))
+            if list(fr) != [False, True, False, False]:
+                msgs.append("find_rows(%s as %s, [0, 255] as %s) = %s" % (M1, np.dtype(d1).name, np.dtype(d2).name, list(fr)))
+            fv = locate.find_vals(np.array(M1, dtype=d1), np.array([3, 255], dtype=d2))
+            if list(fv) != [False, False, True, False, False, True, True, False]:
+                msgs.append("find_vals(%s as %s, [3, 255] as %s) = %s" % (M1, np.dtype(d1).name, np.dtype(d2).name, list(fv)))
     elif which == "index":
         for n in range(0, 5):
             for pv in itertools.product(range(-3, 6), repeat=n):
@@ -330,7 +407,7 @@ def shards(tier, seed):
     nper = len(alpha) ** 6
     for k in range(16):
         out.append(dict(part="perdof", k=k, step=16, alpha=alpha, tier=tier))
-    for w in ("mat_intersect", "index", "lists"):
+    for w in ("mat_intersect", "index", "lists", "dtypes"):
         out.append(dict(part="locate", which=w, tier=tier))
     r = seed % len(out)
     return out[r:] + out[:r]
